@@ -1,4 +1,5 @@
 import Prom.Lemmas.Desc
+import Prom.Gen.Consts
 /-
 C15 — Descriptor identity is structural (up to collisions of the 64-bit FNV hash, as the
 property says: statements are about the *bytes fed to the hasher*).
@@ -142,5 +143,11 @@ theorem order_free_vars (fq help : Str) (vl vl' : List Str) (cl : List (Str × S
         | none => rfl
         | some names => rfl
     · simp [hm]
+
+
+/-- **generated_separator** — the separator byte the source defines NOW (`SEPARATOR_BYTE`, found by
+    `translate/consts.py` wherever under `src/` it lives) is the model's separator 0xFF - the one byte
+    value the injectivity theorems above rely on never occurring in UTF-8 text. -/
+theorem generated_separator : Gen.separatorByte = sep := by decide
 
 end Prom.C15
